@@ -18,10 +18,10 @@ CHECKS = {
     "C03": ("runtime monitoring: all-pairs history check over the non-symmetric face integrals (each face seen from both sides) + structural walk of the compact face list + antisymmetric flux conservation",
             "Every face of every constructed cell is matched with the face seen from the other side (area, shifted area moment, opposite normal), storage multiplicity is counted, and an antisymmetric flux is summed over all cells.",
             "tolerance model of DESIGN 5.3 for the two cells sharing a face", "6/C03"),
-    "C04": ("runtime monitoring: per-face and per-cell invariant monitor (unit outward normal, centroid on bisector/wall, closure sum A n = 0, divergence theorem) on both construction routes",
+    "C04": ("runtime monitoring: per-face and per-cell invariant monitor (unit outward normal, centroid on bisector/wall, closure sum A n = 0, divergence theorem) on both construction routes and on the faces that build_voronoi_cells leaves in caller-owned vectors",
             "Invariants evaluated on every face/cell of thousands of seeded builds, including partial builds.",
             "tolerance model of DESIGN 5.3", "6/C04"),
-    "C05": ("runtime monitoring: totality monitor (catch_unwind, non-finite, watchdog) in release and debug-assertion builds on tie-rich seeded families and a fixed hostile corpus with per-input baseline; in-situ oracle check of every logged exact tie decision; Miri and valgrind legs",
+    "C05": ("runtime monitoring: totality monitor (catch_unwind, non-finite, watchdog) in release and debug-assertion builds on tie-rich seeded families and a fixed hostile corpus with per-input baseline; in-situ oracle check of every logged exact tie decision (sign, orientation, grid point = image of its position); clustered and zoom inputs of the conditioned domain; Miri and valgrind legs",
             "The real builder is run on degenerate inputs under panic capture; every exact decision recorded by the hook is re-evaluated by an independent integer oracle; outputs go through the C01-C04 oracles.",
             "fixed corpus + known_findings.json define which degenerate inputs are expected to fail on the pinned tree; integer oracle vcore::wide", "6/C05"),
     "C06": ("runtime monitoring: metamorphic monitors (periodic build vs non-periodic build of the 3^d-replicated set, shift-lattice invariants, translation invariance) + reference-model comparison on periodic inputs",
@@ -33,10 +33,10 @@ CHECKS = {
     "C08": ("runtime monitoring: differential monitors (garbage in unused coordinates -> bitwise identical digest; 1D closed form; 2D vs 3D slab) and normal-subspace invariants",
             "Builds differing only in unused coordinates must be bitwise identical; 1D results are compared with the sorted-midpoint closed form, 2D results with the 3D build of the same generators in a unit slab.",
             "closed form computed in the harness; the 3D build is trusted only through C01", "6/C08"),
-    "C09": ("runtime monitoring: determinism monitor (digests across rayon pools of 1..64 threads, repeats, injected schedule jitter, no-rayon build) with measured schedule diversity; ThreadSanitizer and Miri data-race legs",
+    "C09": ("runtime monitoring: determinism monitor (digests across rayon pools of 1..64 threads, repeats, injected schedule jitter, no-rayon build) with measured schedule diversity; history-independence and call-sequence monitors (same call after other calls / on cloned and converted objects vs fresh objects, bitwise); ThreadSanitizer and Miri data-race legs",
             "Digest equality across many observed schedules (distinct cell-start orders are counted through the on_cell_start hook); TSan and Miri watch the same parallel loops for races.",
             "schedules are sampled, not enumerated; races in code the workload does not reach are invisible", "6/C09"),
-    "C10": ("runtime monitoring: direct predicate monitor against an independent fixed-width integer determinant (exhaustive small grids, random and adversarial 52-bit tuples), grid-map domain/monotonicity monitor, in-situ orientation/sign check of logged tie decisions",
+    "C10": ("runtime monitoring: direct predicate monitor against an independent fixed-width integer determinant (exhaustive small grids, random and adversarial 52-bit tuples), grid-map domain/monotonicity monitor, in-situ orientation / sign / grid-point-image check of logged tie decisions, incl. many-plane cells in boxes of 1e-15 and 1e-30 where every decision is exact",
             "The real predicate is called on millions of tuples (exhaustively on {0,1}^3 / {0,1,2}^3 and translated to the top of the range) and compared with an independent oracle; the position->grid map is monitored on every position the algorithm can query.",
             "oracle vcore::wide (cross-checked with Python integers in thorough)", "6/C10"),
     "C11": ("runtime monitoring: differential monitor over four builds of the library (ibig, dashu, malachite, num_bigint): per-case digests and predicate sign sequences must be identical and equal to the integer oracle",
@@ -45,7 +45,7 @@ CHECKS = {
     "C12": ("runtime monitoring: structural invariant walk of the cell-face index structure at the quiescent point after every build (both routes, masks, all dimensionalities)",
             "Definition of the index structure recomputed from the face list and compared, for constructed and unconstructed cells.",
             "none beyond the harness code", "6/C12"),
-    "C13": ("runtime monitoring: differential monitor direct vs integrator route (bitwise digests), integral vectors vs stored values, set algebra sym vs non-sym",
+    "C13": ("runtime monitoring: differential monitor direct vs integrator route (bitwise digests), the conversion primitive build_voronoi_cells called directly and repeatedly, integral vectors vs stored values, set algebra sym vs non-sym, integral lists of the with-faces integrator vs the plain one",
             "Both routes are run on every generated input and compared bitwise.",
             "none beyond the harness code", "6/C13"),
     "C14": ("runtime monitoring: a genuine downstream crate implementing the four integral traits; its integrals are the monitors (moments up to degree 2 vs reference polytope, plane residuals of base triangles, data-tag alignment, with/without faces)",
@@ -57,7 +57,7 @@ CHECKS = {
     "C16": ("runtime monitoring: bound monitor (safety radius vs farthest vertex of implementation and reference cell, vs neighbour distances), metamorphic add-far-generators histories, in-situ termination check on the candidate trace",
             "Bound checked on every cell; metamorphic histories add generators beyond the safety radius and require the cell to stay unchanged.",
             "reference clipper for the farthest vertex", "6/C16"),
-    "C17": ("runtime monitoring: history check of the complete neighbour visit sequence (hooked iterator) against a brute-force sorted list of all (generator, image) distances; in-situ prefix check on real builds",
+    "C17": ("runtime monitoring: history check of the complete neighbour visit sequence (hooked iterator) against a brute-force sorted list of all (generator, image) distances; in-situ prefix check on real builds; history variants (same positions, other dimensionality / periodic flag, consecutive on one thread)",
             "Complete visit sequences for sampled queries: self first, every (generator, image) exactly once, lattice shifts, non-decreasing distance up to rounding.",
             "ordering tolerance K u (M+d) d from DESIGN 6/C17", "6/C17"),
     "C18": ("runtime monitoring: differential monitor of the real clip primitive over vertex-array permutations and dual rotations (exhaustive for small removed sets) on cells reached by the real builder",
